@@ -767,6 +767,14 @@ func (g *srvGen) next() ([]byte, []arpResp, *simClient, byte) {
 			}
 		}
 	}
+	if g.r2 != nil && g.r2.Intn(14) == 0 {
+		// the server's own hardware address in chaddr, whatever the kind of message and whatever client identifier comes with it:
+		// never answered, changes nothing
+		m.chaddr = c.selfMAC
+		if g.r2.Intn(3) == 0 {
+			m.setOpt(61, append([]byte{1}, c.selfMAC...))
+		}
+	}
 	pkt := udpip(src, dst, 68, dport, proto, 64, m.bytes())
 	if g.r2 != nil && g.r2.Intn(4) == 0 {
 		// the envelope of the request in every dress: source port, TOS, identification, don't-fragment, TTL 1 / 255, IP options, no UDP checksum
@@ -817,19 +825,53 @@ func runServerHistory(t *testing.T, c *caseWriter, tags string, kind string, see
 		if kind == "variant" {
 			noise = g.variant(rand.New(rand.NewSource(seedv ^ 0x5eed5eed)))
 		}
+		if kind == "collide" {
+			// a static entry that collides with the server itself.  Such a configuration is refused (C18); should a server
+			// start from it nevertheless, what it hands out is judged by mon_C02 like any other history
+			noise = g.variant(rand.New(rand.NewSource(seedv ^ 0x5eed5eed)))
+			if seedv%2 == 0 {
+				g.cfg.statics = append(g.cfg.statics, [2]interface{}{g.clients[0].mac, g.cfg.selfIP})
+				g.clients[0].static = true
+			} else {
+				g.cfg.statics = append(g.cfg.statics, [2]interface{}{g.cfg.selfMAC, g.cfg.netU + ^g.cfg.maskU - 1})
+				if g.cfg.hasRange && g.cfg.rangeB > g.cfg.selfIP && !g.crowded {
+					g.cfg.rangeB = g.cfg.selfIP
+					g.pool = append([]uint32{g.cfg.selfIP}, g.pool...)
+				}
+			}
+		}
 		s, err := startServer(t, g.cfg)
 		if err != nil {
+			if kind == "collide" {
+				atomic.AddInt64(&collideRefused, 1)
+				return
+			}
 			t.Logf("server.New failed for generated config: %v", err)
 			return
 		}
 		defer s.stop()
 		s.noise = noise
 		n := 3 + r.Intn(30)
+		var lastPkt []byte
+		var lastReply []byte
+		var lastArp []arpResp
+		var lastCl *simClient
 		for i := 0; i < n; i++ {
 			pkt, arp, cl, _ := g.next()
 			obs := s.round(pkt, arp)
 			g.observe(cl, obs.outs)
+			if len(obs.outs) == 1 && len(pkt) > 40 && pkt[0] == 0x45 {
+				lastPkt, lastReply, lastArp, lastCl = pkt, obs.outs[0].pkt, arp, cl
+			}
 			s.advance(g.gap())
+		}
+		if kind == "variant" && lastPkt != nil {
+			// the request that was answered last, once more under a transaction id chosen so that the one's complement sum
+			// of the reply's UDP datagram needs a second carry fold (a window of about 1 in 600 ids)
+			if pkt, ok := aimXid(lastPkt, lastReply); ok {
+				obs := s.round(pkt, lastArp)
+				g.observe(lastCl, obs.outs)
+			}
 		}
 		var macs [][]byte
 		for _, cl := range g.clients {
@@ -840,11 +882,50 @@ func runServerHistory(t *testing.T, c *caseWriter, tags string, kind string, see
 			exp = append(exp, 0)
 		}
 		outs := [][]interface{}{{exp}}
+		if !strings.HasPrefix(tags, "101") {
+			outs = [][]interface{}{{L{1}}} // monitors only
+		}
 		for i := 1; i < len(strings.Split(tags, "+")); i++ {
 			outs = append(outs, []interface{}{L{1}})
 		}
 		c.addMulti(tags, kind, true, s.encode(macs), outs)
 	})
+}
+
+var collideRefused int64
+
+// aimXid returns req with a transaction id (and no UDP checksum) for which a reply that equals `reply` in everything but the id
+// has a UDP checksum accumulator whose first carry fold overflows 16 bits again.
+func aimXid(req, reply []byte) ([]byte, bool) {
+	if len(reply) < 28+240 || reply[0] != 0x45 || len(req) < 28+240 {
+		return nil, false
+	}
+	seg := reply[20:]
+	var acc uint32
+	add := func(b []byte) {
+		for i := 0; i+1 < len(b); i += 2 {
+			acc += uint32(b[i])<<8 | uint32(b[i+1])
+		}
+		if len(b)%2 == 1 {
+			acc += uint32(b[len(b)-1]) << 8
+		}
+	}
+	add(reply[12:20])
+	acc += 17 + uint32(len(seg))
+	z := append([]byte{}, seg...)
+	z[6], z[7] = 0, 0
+	z[12], z[13], z[14], z[15] = 0, 0, 0, 0 // transaction id
+	add(z)
+	for w := uint32(1); w < 0x10000; w++ {
+		a := acc + w
+		if (a>>16)+(a&0xffff) >= 0x10000 {
+			out := append([]byte{}, req...)
+			out[32], out[33], out[34], out[35] = 0, 0, byte(w>>8), byte(w)
+			out[26], out[27] = 0, 0 // "no checksum"
+			return out, true
+		}
+	}
+	return nil, false
 }
 
 func TestServerHistories(t *testing.T) {
@@ -868,6 +949,10 @@ func TestServerHistories(t *testing.T) {
 			kind = "variant"
 		}
 		runServerHistory(t, c, serverTags(), kind, seed()*1000003+int64(i))
+	}
+	// configurations in which a static entry collides with the server's own address or hardware address
+	for i := 0; i < scale(12, 200); i++ {
+		runServerHistory(t, c, "202", "collide", seed()*1000003+int64(i))
 	}
 }
 
